@@ -61,6 +61,7 @@ type vfSrvStream struct {
 	cliES   bool
 	cliRST  bool
 	srvEnd  bool // the server sent END_STREAM or RST_STREAM (steering only)
+	wrote   int  // handler writes so far
 }
 
 type vfSrvOp struct {
@@ -93,6 +94,8 @@ type vfSrv struct {
 	panics []string // serve-loop panics caught by the package's test hook
 	frames int
 	goaway int // last GOAWAY code seen, -1 if none
+	shut   bool   // the server sent GOAWAY(NO_ERROR): graceful shutdown, the connection goes on
+	lastID uint32 // last-stream-id of that GOAWAY
 }
 
 func (d *vfSrv) emit(ev map[string]any) {
@@ -218,7 +221,11 @@ func (d *vfSrv) logFrame(f Frame) {
 		d.emit(map[string]any{"e": "s_wu", "s": f.StreamID, "inc": int(f.Increment)})
 	case *GoAwayFrame:
 		d.goaway = int(f.ErrCode)
-		d.dead = true
+		if f.ErrCode == ErrCodeNo {
+			d.shut, d.lastID = true, f.LastStreamID
+		} else {
+			d.dead = true
+		}
 		d.emit(map[string]any{"e": "s_goaway", "code": int(f.ErrCode), "last": int(f.LastStreamID)})
 	default:
 		d.emit(map[string]any{"e": "s_other", "type": int(f.Header().Type)})
@@ -476,9 +483,28 @@ func (d *vfSrv) resume() {
 	d.nc.SetReadBufferSize(math.MaxInt)
 }
 
-func (d *vfSrv) hwrite(s *vfSrvStream, n int) {
-	d.emit(map[string]any{"e": "h_write", "s": s.id, "n": n})
+// goAwayCause starts a graceful shutdown of the connection in one of the ways the server knows:
+// the client sends GOAWAY(NO_ERROR), or the Server side asks for it.
+func (d *vfSrv) goAwayCause(fromClient bool) bool {
+	if fromClient {
+		d.emit(map[string]any{"e": "c_goaway"})
+		return d.ok(d.st.fr.WriteGoAway(0, ErrCodeNo, nil))
+	}
+	d.emit(map[string]any{"e": "shutdown"})
+	d.st.sc.StartGracefulShutdown()
+	return true
+}
+
+// hwrite: the handler writes n bytes and flushes; closeConn puts "Connection: close" on the
+// response head (only meaningful on the handler's first write).
+func (d *vfSrv) hwrite(s *vfSrvStream, n int, closeConn bool) {
+	closeConn = closeConn && s.wrote == 0
+	s.wrote++
+	d.emit(map[string]any{"e": "h_write", "s": s.id, "n": n, "close": closeConn})
 	d.async(s, func(w http.ResponseWriter, r *http.Request) {
+		if closeConn {
+			w.Header().Set("Connection", "close")
+		}
 		w.Write(make([]byte, n))
 		w.(http.Flusher).Flush()
 	})
@@ -595,7 +621,7 @@ func vfSrvScenario(tb testing.TB, env *vfEnv, tn int, rnd *rand.Rand, script []v
 				if !s.idle() {
 					did = false
 				} else {
-					d.hwrite(s, 1+rnd.Intn(100))
+					d.hwrite(s, 1+rnd.Intn(100), false)
 				}
 			case "hret":
 				if !s.idle() {
@@ -613,8 +639,19 @@ func vfSrvScenario(tb testing.TB, env *vfEnv, tn int, rnd *rand.Rand, script []v
 				d.ping()
 			case "settings":
 				d.settings(nil)
-			default:
-				did = false
+			case "goaway": // a graceful shutdown begins: by client GOAWAY, Server shutdown or "Connection: close"
+				var w *vfSrvStream
+				for _, id := range d.order {
+					if x := d.strs[id]; x.idle() && x.wrote == 0 {
+						w = x
+					}
+				}
+				switch c := rnd.Intn(3); {
+				case c == 2 && w != nil:
+					d.hwrite(w, 1+rnd.Intn(50), true)
+				default:
+					d.goAwayCause(c == 0)
+				}
 			}
 			if did {
 				d.settle()
@@ -628,6 +665,7 @@ func vfSrvScenario(tb testing.TB, env *vfEnv, tn int, rnd *rand.Rand, script []v
 	nops := env.Int("ops", 45)
 	maxStreams := env.Int("streams", 14)
 	pausePct := env.Int("pause_pct", 100) // how often the "peer stops reading" command is taken when drawn
+	goawayPct := env.Int("goaway_pct", 3) // per command: a graceful shutdown begins (client GOAWAY / Server shutdown)
 	for k := 0; k < nops && !d.dead; k++ {
 		var cand []*vfSrvStream
 		for _, id := range d.order {
@@ -658,10 +696,15 @@ func vfSrvScenario(tb testing.TB, env *vfEnv, tn int, rnd *rand.Rand, script []v
 			d.settle()
 			continue
 		}
+		if !d.shut && rnd.Intn(100) < goawayPct {
+			d.goAwayCause(rnd.Intn(2) == 0)
+			d.settle()
+			continue
+		}
 		x := rnd.Intn(100)
 		switch {
 		case x < 22 || len(d.order) == 0: // open a stream
-			if len(d.order) >= maxStreams {
+			if len(d.order) >= maxStreams || (d.shut && rnd.Intn(3) != 0) {
 				continue
 			}
 			kind := "ok"
@@ -699,7 +742,7 @@ func vfSrvScenario(tb testing.TB, env *vfEnv, tn int, rnd *rand.Rand, script []v
 			if rnd.Intn(8) == 0 {
 				n = 70000 // more than the connection window: DATA stays queued
 			}
-			d.hwrite(s, n)
+			d.hwrite(s, n, rnd.Intn(100) < goawayPct*4)
 		case x < 74: // handler returns
 			s := pick(func(s *vfSrvStream) bool { return s.idle() })
 			if s == nil {
